@@ -18,6 +18,10 @@ macro_rules! unsafe_linear_float_to_encoded_uint {
             {
                 debug_assert!($table.get(i).is_some());
             }
+            #[cfg(palette_verif)]
+            {
+                assert!(i < $table.len(), "lut index {} out of bounds ({})", i, $table.len());
+            }
             *$table.get_unchecked(i)
         };
 
